@@ -12,7 +12,7 @@ CLAIMED = {
     "C01": {
         "category": "proof",
         "technique": "Lean 4 refinement proofs, layer by layer: API operations over per-bucket B+trees refine the reference nested ordered map for every operation sequence at every nesting depth; lookup / cursor / edits on every well-formed tree; the commit model (any rebalance steps + spill, any page size) preserves contents and the tree invariant; a tree written to pages reads back as the same tree. Each layer's model is tied to the code on every run: call outcomes, exact overlay trees after edits, exact committed trees, freed pages, bytes of every page, decoded file contents",
-        "text": "Proved in Lean (Jamm/Props/C01.lean, 22 theorems), for all keys, values, trees, operation sequences and page sizes: (1) the reference is an ordered map; (2) the database as the code holds it — one B+tree per bucket, put / get / delete / get-create-delete bucket with the control flow and error precedence of bucket.rs over the tree operations — returns exactly the reference's values and error kinds and has the reference's contents, counters and bucket structure after any sequence of operations at any nesting depth, all trees staying well-formed (api_*_refines, api_history_refines); (3) on every well-formed tree point lookup, full cursor scan (ascending) and any sequence of leaf edits equal the reference's; (4) the model of one bucket's commit — replay of ANY list of rebalance steps, touches of nested-bucket headers, then spill at any page size — leaves the contents unchanged and keeps the tree invariant (separators bound subtrees, no routing gap, uniform depth), which implies well-formedness, so (3) applies at every point of every history; a commit that keeps each bucket's contents is invisible in the reference (api_commit_invisible); (5) a tree written node by node to pages unfolds from its root page to exactly the same tree and disturbs nothing else (what a later transaction or a reopen reads is what was written). The layers are proved separately; their composition into one end-to-end theorem about the whole system (begin / commit / reopen through the header choice of C12 and the crash model of C02) is by the ties, not by a single theorem. Ties, checked on every run by the Lean driver on the real code built from the working tree: every call outcome and every post-commit dump (same process and after reopen) against the reference; after every edit the real overlay tree against the model's (overlay_prediction_is_exact, C07); for every commit the real committed tree of every bucket against the commit model's prediction, the freed pages and new-page count against the model's, every tree / header / free-list page byte for byte against the model writers, and the decoded file through the verified checker (C05). Histories: random profiles (deep, tiny, huge, empty and prefix keys, multi-page values, nested buckets, rollbacks, reopen, misuse of deleted handles, six argument types), all contiguous delete ranges and keep-windows over 1/2/3-level trees with and without nested buckets, growth across several extension steps.",
+        "text": "Proved in Lean (Jamm/Props/C01.lean, 24 theorems), for all keys, values, trees, operation sequences and page sizes: (1) the reference is an ordered map; (2) the database as the code holds it — one B+tree per bucket, put / get / delete / get-create-delete bucket with the control flow and error precedence of bucket.rs over the tree operations — returns exactly the reference's values and error kinds and has the reference's contents, counters and bucket structure after any sequence of operations at any nesting depth, all trees staying well-formed (api_*_refines, api_history_refines); (3) on every well-formed tree point lookup, full cursor scan (ascending) and any sequence of leaf edits equal the reference's; (4) the model of one bucket's commit — replay of ANY list of rebalance steps, touches of nested-bucket headers, then spill at any page size — leaves the contents unchanged and keeps the tree invariant (separators bound subtrees, no routing gap, uniform depth), which implies well-formedness, so (3) applies at every point of every history; a commit that keeps each bucket's contents is invisible in the reference (api_commit_invisible); (5) a tree — and a whole database, every bucket at every nesting depth — written node by node to pages is read back from the root page as exactly the same tree / database and disturbs nothing else (what a later transaction or a reopen reads is what was written); the state read from a file the checker accepts is an API-layer database with only well-formed trees, so (2)–(4) apply to it. The layers are proved separately; their composition into one end-to-end theorem about the whole system (begin / commit / reopen through the header choice of C12 and the crash model of C02) is by the ties, not by a single theorem. Ties, checked on every run by the Lean driver on the real code built from the working tree: every call outcome and every post-commit dump (same process and after reopen) against the reference; after every edit the real overlay tree against the model's (overlay_prediction_is_exact, C07); for every commit the real committed tree of every bucket against the commit model's prediction, the freed pages and new-page count against the model's, every tree / header / free-list page byte for byte against the model writers, and the decoded file through the verified checker (C05). Histories: random profiles (deep, tiny, huge, empty and prefix keys, multi-page values, nested buckets, rollbacks, reopen, misuse of deleted handles, six argument types), all contiguous delete ranges and keep-windows over 1/2/3-level trees with and without nested buckets, growth across several extension steps.",
         "design_ref": "DESIGN.md §5 C01, §3",
         "note": COMMON_NOTE + "Hand-written models tied by correspondence: the API control flow (Model/TreeDB.lean), tree operations, commit, page writers. The order in which rebalance visits nodes is read from the run (the theorems hold for every order). Handles, iterator adaptors and the panic on a deleted-bucket handle are specified in the driver's handle table, not in Lean theorems.",
     },
